@@ -40,6 +40,7 @@ static int g_resync;
 int inflateInit2_(z_streamp s, int wbits, const char *ver, int sz){ s->total_in=0; g_resync=1; return Z_OK; }
 int inflateEnd(z_streamp s){ return Z_OK; }
 uLong crc32(uLong crc, const Bytef *buf, uInt len){ return crc+len; }
+#define VERIF_RC_MEM 77
 #ifndef RCPLAN
 #define RCPLAN {Z_DATA_ERROR,Z_DATA_ERROR,Z_DATA_ERROR,Z_DATA_ERROR,Z_DATA_ERROR,Z_DATA_ERROR}
 #endif
@@ -59,7 +60,7 @@ static int decoder_step(const unsigned char *next_in, size_t *in_avail, size_t *
     if(g_resync){ g_next_in_off=off; g_resync=0; }
     /* offered input continues exactly where the decoder stopped: nothing skipped, nothing offered twice */
     assert(off==g_next_in_off);
-    if(rc==Z_DATA_ERROR || rc==Z_BUF_ERROR){ *used_in=0; *made_out=0; return rc; }      /* failure without progress */
+    if(rc==Z_DATA_ERROR || rc==Z_BUF_ERROR || rc==VERIF_RC_MEM){ *used_in=0; *made_out=0; return rc; }      /* failure without progress */
     size_t ui=in_size_le(*in_avail), mo=in_size_le(*out_avail);
     __CPROVER_assume(ui>0 || mo>0);                 /* zlib: Z_OK implies progress */
 #ifdef STEP_SPLIT
@@ -83,6 +84,7 @@ void LzmaDec_Init(CLzmaDec *p){}
 void LzmaDec_Free(CLzmaDec *p, ISzAllocPtr alloc){ NOT_LZMA(); }
 SRes LzmaDec_DecodeToBuf(CLzmaDec *p, Byte *dest, SizeT *destLen, const Byte *src, SizeT *srcLen, ELzmaFinishMode fm, ELzmaStatus *status, SizeT memlimit){ NOT_LZMA();
     size_t ia=*srcLen, oa=*destLen, ui, mo; int rc=decoder_step(src,&ia,&oa,&ui,&mo); *srcLen=ui; *destLen=mo;
+    if(rc==VERIF_RC_MEM) { *status=LZMA_STATUS_NOT_SPECIFIED; return SZ_ERROR_MEM; }     /* dictionary beyond lzma_memlimit */
     if(rc==Z_DATA_ERROR) { *status=LZMA_STATUS_NOT_SPECIFIED; return SZ_ERROR_DATA; }
     *status = (rc==Z_STREAM_END)? LZMA_STATUS_FINISHED_WITH_MARK : LZMA_STATUS_NOT_FINISHED; return SZ_OK; }
 /* ---- the outer callback ---- */
@@ -97,7 +99,7 @@ static htp_status_t cb(htp_tx_data_t *d){ assert(g_ncb<8); cb_data[g_ncb]=d->dat
 static size_t gzip_header_skip(const unsigned char *d, size_t n){ if(n<4) return 0; if(!(d[0]==0x1f && d[1]==0x8b && d[3]!=0)) return 0;
     if(d[3]&(1<<3) || d[3]&(1<<4)){ size_t k=10; for(size_t i=10;i<LEN1;i++) if(k==i && i<n && d[i]!=0) k++; return k+1; }
     if(d[3]&(1<<1)) return 12; return 10; }
-static htp_cfg_t CFG; static htp_connp_t C; static htp_tx_t TX;
+static htp_cfg_t CFG, CFG0; static htp_connp_t C; static htp_tx_t TX;
 static htp_status_t call(htp_decompressor_t *dz, const unsigned char *data, size_t len, size_t base){ htp_tx_data_t d; d.tx=&TX; d.data=data; d.len=len; d.is_last=0;
     cur_chunk=data; cur_len=len; cur_base=base; return htp_gzip_decompressor_decompress(dz,&d); }
 void harness(void){
@@ -114,6 +116,7 @@ void harness(void){
 #else
         HTP_COMPRESSION_GZIP;
 #endif
+    CFG0=CFG;
     htp_decompressor_t *dz=htp_gzip_decompressor_create(&C,fmt); __CPROVER_assume(dz); dz->callback=cb;
 #if SCEN==5
     /* a decompressor that has given up (pass-through) hands every later chunk, and the final empty call, to the callback untouched */
@@ -174,6 +177,8 @@ void harness(void){
     VERIF_COVER(g_err_seen, "a delivery was refused");
     assert(g_cb_after_err==0);
 #endif
+    /* C19: the configuration is shared by every parser created from it; decompression never writes it */
+    assert(memcmp(&CFG0,&CFG,sizeof CFG)==0);
     htp_gzip_decompressor_destroy(dz);
     VERIF_WITNESS();
 }
